@@ -289,10 +289,10 @@ def check_notify_and_entry(idx: Index, rep: Report) -> None:
 
 
 def check(idx: Index, rep: Report, tier: str) -> str:
-    check_predicate(idx, rep)
-    check_erase_sites(idx, rep)
-    check_liveness(idx, rep)
-    check_notify_and_entry(idx, rep)
+    rep.run(check_predicate, idx, rep)
+    rep.run(check_erase_sites, idx, rep)
+    rep.run(check_liveness, idx, rep)
+    rep.run(check_notify_and_entry, idx, rep)
     return (
         "Required-conjunct extraction over the removability predicate (closed over its helpers in "
         "dead_code_elimination.py and traits.get_effects), guarded-action check of every erase site of the dce "
